@@ -1,11 +1,14 @@
 """C18 — travel-limit helpers: correspondence Gen(ieee) <-> plot_utils, and the property oracle."""
-import math
+import math, os
 from fractions import Fraction
 from .common import pyval
+from . import sitecov
 
 GEN_FUNCTIONS = ['checkLimits', 'checkLimitsTol', 'point_in_bounds', 'constrainLimits']
 RULE = ('boundary-biased (value at/around lower, upper, upper+tol, lower-tol, +-1 ulp, degenerate ranges) and random '
-        'int/float mixtures; a case is non-trivial when the value is not strictly inside the range; distinct by input tuple')
+        'int/float mixtures; a case is non-trivial when the value is not strictly inside the range; distinct by input tuple; '
+        'plus the "sitecov" stream: every comparison of the CURRENT source of the four helpers driven to lhs == rhs, +-1 ulp '
+        'and both outcomes (harness/sitecov.py)')
 TRUSTED = ['translator/pynum2lean.py (validated by this correspondence run)',
            'Rounding.ieee as model of binary64 addition (validated by this run)',
            'modelled not verified: Python int/float comparison = exact rational comparison']
@@ -36,6 +39,34 @@ def gen_case(rng):
         cands += [b + sgn * 2.0 ** -rng.randint(25, 50), b + sgn * abs(b) * 2.0 ** -rng.randint(40, 52)]
     v = rng.choice(cands)
     return v, lo, hi, tol
+
+
+SITECOV_ONLY = bool(os.environ.get('SITECOV_ONLY'))   # experiment: unbiased random cases + the sitecov stream only
+SITECOV_OFF = bool(os.environ.get('SITECOV_OFF'))     # experiment control: no sitecov stream
+
+
+def gen_plain(rng):
+    """a case WITHOUT boundary bias (used only when SITECOV_ONLY is set)"""
+    lo = rng.choice([rng.randint(-1000, 1000), rng.uniform(-1000, 1000)])
+    hi = lo + rng.choice([rng.randint(0, 1000), rng.uniform(0, 1000)])
+    v = rng.uniform(-3000, 3000)
+    tol = rng.choice([0, 1, 0.5, 1e-9, rng.uniform(0, 2)])
+    return v, lo, hi, tol
+
+
+def finite(*xs):
+    return all(type(x) is int or (type(x) is float and math.isfinite(x)) for x in xs)
+
+
+def in_domain(c):
+    """ASSUMPTIONS: finite ints/floats, lower <= upper, tolerance >= 0"""
+    v, lo, hi, tol = c
+    return finite(v, lo, hi, tol) and Fraction(lo) <= Fraction(hi) and tol >= 0
+
+
+def in_domain2(c):
+    x, y, x0, y0, x1, y1, t = c
+    return finite(*c) and Fraction(x0) <= Fraction(x1) and Fraction(y0) <= Fraction(y1) and t >= 0
 
 
 def inside(v, lo, hi):
@@ -99,29 +130,62 @@ def run(ctx):
     from plotink import plot_utils as pu
     rng = ctx.rng
     cases = []
-    # exhaustive small integer box
-    for lo in range(-2, 3):
-        for hi in range(lo, 3):
-            for v in range(-4, 5):
-                for tol in (0, 1):
-                    cases.append((v, lo, hi, tol))
-    for _ in range(ctx.n(4000)):
-        cases.append(gen_case(rng))
+    if SITECOV_ONLY:
+        for _ in range(ctx.n(4000)):
+            cases.append(gen_plain(rng))
+        ctx.notes.append('SITECOV_ONLY: the small box and the boundary-biased generator are disabled; inputs = unbiased random '
+                         'cases + the sitecov stream')
+    else:
+        # exhaustive small integer box
+        for lo in range(-2, 3):
+            for hi in range(lo, 3):
+                for v in range(-4, 5):
+                    for tol in (0, 1):
+                        cases.append((v, lo, hi, tol))
+        for _ in range(ctx.n(4000)):
+            cases.append(gen_case(rng))
+    pts = pipeline(ctx, pu, cases, None, sequences=True)
+
+    # ---- sitecov stream: boundary inputs for every comparison of the CURRENT source, through the same pipeline ----
+    if not SITECOV_OFF:
+        num4 = {0: 'num', 1: 'num', 2: 'num', 3: 'num'}
+        seeds = rng.sample(cases, min(len(cases), 150))
+        tol_of = lambda: rng.choice([0, 1e-9, 0.5, 1])                  # noqa: E731  (checkLimits has no tolerance)
+        sitecov.stream(ctx, 'checkLimits', pu.checkLimits, [c[:3] for c in seeds],
+                       rerun=lambda cs: pipeline(ctx, pu, cs, []), to_case=lambda a: a + (tol_of(),),
+                       moves=sitecov.Moves(kinds=num4, domain=lambda a: in_domain(a + (0,))), budget=800)
+        sitecov.stream(ctx, 'checkLimitsTol', pu.checkLimitsTol, seeds, rerun=lambda cs: pipeline(ctx, pu, cs, []),
+                       moves=sitecov.Moves(kinds=num4, lo={3: 0}, domain=in_domain), budget=1500)
+        sitecov.stream(ctx, 'constrainLimits', pu.constrainLimits, [c[:3] for c in seeds],
+                       rerun=lambda cs: pipeline(ctx, pu, cs, []), to_case=lambda a: a + (tol_of(),),
+                       moves=sitecov.Moves(kinds=num4, domain=lambda a: in_domain(a + (0,))), budget=300)
+        seeds2 = rng.sample(pts, min(len(pts), 150))
+        sitecov.stream(ctx, 'point_in_bounds', pu.point_in_bounds, seeds2, rerun=lambda ps: pipeline(ctx, pu, [], ps),
+                       apply=lambda tw, a: tw([a[0], a[1]], [[a[2], a[3]], [a[4], a[5]]], a[6]),
+                       moves=sitecov.Moves(kinds={j: 'num' for j in range(7)}, lo={6: 0}, domain=in_domain2), budget=2000)
+
+
+def pipeline(ctx, pu, cases, pts, sequences=False):
+    """driver answers, real code, correspondence and oracle for 1-D cases (v, lo, hi, tol) and 2-D cases
+    (x, y, x0, y0, x1, y1, t); pts = None pairs consecutive 1-D cases.  Returns the 2-D cases."""
     lines, meta = [], []
     for (v, lo, hi, tol) in cases:
         a = [pyval(v), pyval(lo), pyval(hi)]
         lines.append('gen checkLimits 15 ' + ' '.join(a)); meta.append(('checkLimits', (v, lo, hi, tol)))
         lines.append('gen checkLimitsTol 15 ' + ' '.join(a + [pyval(tol)])); meta.append(('checkLimitsTol', (v, lo, hi, tol)))
         lines.append('gen constrainLimits 15 ' + ' '.join(a)); meta.append(('constrainLimits', (v, lo, hi, tol)))
-    # 2-D cases: pair consecutive 1-D cases sharing the tolerance
-    pts = []
-    for i in range(0, len(cases) - 1, 2):
-        (x, x0, x1, t), (y, y0, y1, _) = cases[i], cases[i + 1]
-        pts.append((x, y, x0, y0, x1, y1, t))
-        lines.append('gen point_in_bounds 15 ' + ' '.join(pyval(z) for z in (x, y, x0, y0, x1, y1, t)))
-        meta.append(('point_in_bounds', (x, y, x0, y0, x1, y1, t)))
+    if pts is None:
+        # 2-D cases: pair consecutive 1-D cases sharing the tolerance
+        pts = []
+        for i in range(0, len(cases) - 1, 2):
+            (x, x0, x1, t), (y, y0, y1, _) = cases[i], cases[i + 1]
+            pts.append((x, y, x0, y0, x1, y1, t))
+    for pt in pts:
+        lines.append('gen point_in_bounds 15 ' + ' '.join(pyval(z) for z in pt))
+        meta.append(('point_in_bounds', tuple(pt)))
     outs = ctx.driver.batch(lines) if ctx.driver else [None] * len(lines)
-    run_sequences(ctx, pu, pts)
+    if sequences:
+        run_sequences(ctx, pu, pts)
     for (fn, args), out in zip(meta, outs):
         try:
             if fn == 'checkLimits':
@@ -177,3 +241,4 @@ def run(ctx):
                 ctx.violate('point_in_bounds disagrees with checkLimitsTol per coordinate', inp, impl, str((not fx) and (not fy)))
             if r != wantb:
                 ctx.violate('point_in_bounds: not "within tolerance of the bounds"', inp, impl, str(wantb))
+    return pts
